@@ -36,6 +36,12 @@ pub fn run(args: &[String]) {
         let k = if id == 0 { 0 } else { 1 + rng.below(6) as usize };
         let mut ents: Vec<(String, u16, i32)> = Vec::new();
         if id == 1 { ents = vec![("e*".into(), 0, 2), ("C".into(), 0, 1)]; }
+        // hydrogen without carbon next to symbols on both sides of "H" in the alphabet; carbon without hydrogen; only labelled C / H
+        if id == 2 { ents = vec![("H".into(), 0, 3), ("B".into(), 0, 1)]; }
+        if id == 3 { ents = vec![("H".into(), 0, 2), ("Ar".into(), 0, 1), ("O".into(), 0, 4), ("He".into(), 0, 1)]; }
+        if id == 4 { ents = vec![("C".into(), 0, 2), ("Br".into(), 0, 1), ("Ca".into(), 0, 1)]; }
+        if id == 5 { ents = vec![("C".into(), 13, 2), ("H".into(), 2, 1), ("B".into(), 0, 1), ("Cl".into(), 0, 2)]; }
+        let k = if (2..=5).contains(&id) { ents.len() } else { k };
         let k = if id == 1 { 2 } else { k };
         while ents.len() < k {
             let (s, i) = if rng.chance(2, 3) { rng.pick(&common).clone() } else { rng.pick(&keys).clone() };
